@@ -869,11 +869,18 @@ def expand(template_path, repo='/repo'):
                     linfo['file'] = f
                     side.setdefault('lifted_closures', []).append(linfo)
             for needle, txt in befores:
+                # `#k needle`: the k-th occurrence (1-based) of the needle at statement level; default the first
+                occ = 1
+                mo = re.match(r'#(\d+)\s+(.*)$', needle)
+                if mo:
+                    occ, needle = int(mo.group(1)), mo.group(2)
                 rxn = re.compile(r'\s*'.join(re.escape(tok) for tok in needle.split()))
-                pos = None
+                pos, seen_ = None, 0
                 for j, d in rc.code_positions(body):
                     if rxn.match(body, j) and (j == 0 or not (body[j - 1].isalnum() or body[j - 1] == '_')):
-                        pos = j; break
+                        seen_ += 1
+                        if seen_ == occ:
+                            pos = j; break
                 if pos is None:
                     raise CutError('fn %s: statement for //@before not found: %s' % (name, needle))
                 body = body[:pos] + txt + '\n        ' + body[pos:]
